@@ -587,6 +587,15 @@ def extract(unit, repo, verus_dir):
             new = contract_fn(new_sig + txt, it, log, what)
             new = "\n".join(l[8:] if l.startswith("        ") else l for l in new.split("\n"))
             functions.append(("parse_be_" + T, it["file"], bool(it.get("contract")), bool(it.get("external_body"))))
+            if it.get("with_parse"):
+                # the generated `fn parse(orig_i) { Self::parse_be(orig_i) }` (checked above), kept as an inherent method
+                # so that hand-written call sites `T::parse(i)` stay verbatim
+                if selector or lt:
+                    raise AnchorLost("with_parse supports plain (selector-free, lifetime-free) types only: " + T)
+                new += ("\n\nimpl %s {\n    pub fn parse<'a>(orig_i: &'a [u8]) -> (r: IResult<&'a [u8], %s>)\n    %s\n    {\n        parse_be_%s(orig_i)\n    }\n}"
+                        % (T, T, it["contract"].strip(), T))
+                log.append("R13 generated `%s::parse` (delegation to parse_be) kept as an inherent method" % T)
+                functions.append((T + "::parse", it["file"], True, False))
         elif kind == "newtype_enum":
             start, end, consts = slice_newtype_enum(src, masked, name)
             orig = src[start:end]
